@@ -35,6 +35,11 @@ STATE_CAP = 20000
 
 # Builtin / library exception hierarchy (child -> parent) the repository's handlers name.
 BUILTIN_PARENT = {
+    "asyncio.CancelledError": "BaseException",  # (since 3.8: `except Exception` does not catch it)
+    "asyncio.exceptions.CancelledError": "BaseException",
+    "KeyboardInterrupt": "BaseException",
+    "SystemExit": "BaseException",
+    "GeneratorExit": "BaseException",
     "TimeoutError": "OSError",
     "OSError": "Exception",
     "FileNotFoundError": "OSError",
@@ -443,7 +448,7 @@ class Analysis:
         cur = tag
         while True:
             short = cur.split(".")[-1]
-            nxt = self.parents.get(cur) or self.parents.get(short) or BUILTIN_PARENT.get(cur) or BUILTIN_PARENT.get(short)
+            nxt = self.parents.get(cur) or BUILTIN_PARENT.get(cur) or self.parents.get(short) or BUILTIN_PARENT.get(short)
             if nxt is None:
                 if cur not in ("BaseException",):
                     # unknown class: assume it derives from Exception
@@ -478,9 +483,10 @@ class Analysis:
         if shorts & anc_short:
             return "yes"
         if tag == ANY_EXC:
-            # an unknown Exception subclass may be any of the named classes
-            if all(n.split(".")[-1] in ("BaseExceptionGroup",) for n in names):
-                return "maybe"
+            # an unknown Exception subclass may be any of the named classes — except those that are not Exceptions at all
+            # (asyncio.CancelledError, KeyboardInterrupt …: BaseException only)
+            if all("Exception" not in self.ancestors(n) and n.split(".")[-1] not in ("BaseException", "BaseExceptionGroup") for n in names):
+                return ""
             return "maybe"
         # tags other than Exception* come from `raise X(...)` and are exact classes: a handler for a
         # subclass of X does not catch them
